@@ -45,8 +45,18 @@ func genPlan(t *rapid.T) (rig.ConnPlan, string) {
 		return rig.ConnPlan{Kind: "serve", ALPN: alpn, NReq: rapid.IntRange(0, 2).Draw(t, "nreq"), Limit: int64(rapid.IntRange(0, 2500).Draw(t, "cut")), LimitMode: "close"}, "abort-at-offset"
 	case 4:
 		return rig.ConnPlan{Kind: "serve", ALPN: alpn, NReq: rapid.IntRange(0, 2).Draw(t, "nreq"), Limit: int64(rapid.IntRange(0, 2500).Draw(t, "stall")), LimitMode: "stall"}, "stall-at-offset"
+	case 5:
+		// a ClientHello record whose legacy record version the TLS stack does not care about; the capture accepts
+		// 0x0300..0x0304 only, so for the others the handshake completes and the capture fails
+		return rig.ConnPlan{Kind: "serve", ALPN: alpn, NReq: rapid.IntRange(0, 2).Draw(t, "nreq"), Limit: -1, FirstRecordVersion: rapid.SampledFrom([]uint16{0x0300, 0x0302, 0x0304, 0x0305, 0x0200, 0x03ff}).Draw(t, "recv")}, "odd-record-version"
 	default:
-		return rig.ConnPlan{Kind: "serve", ALPN: alpn, NReq: rapid.IntRange(0, 3).Draw(t, "nreq"), Limit: -1}, "served:" + map[string]string{"h2": "h2", "http/1.1": "http/1.1", "": "no-alpn"}[alpn]
+		pl := rig.ConnPlan{Kind: "serve", ALPN: alpn, NReq: rapid.IntRange(0, 3).Draw(t, "nreq"), Limit: -1}
+		if alpn == "h2" {
+			// a client that also sends the frames fingerprinting looks at, and more than once
+			pl.H2Extra = rapid.SliceOfNDistinct(rapid.SampledFrom([]string{"wu-conn", "wu-stream", "priority", "ping", "settings"}), 0, 4, rapid.ID[string]).Draw(t, "extra")
+			pl.LastStream = rapid.SampledFrom([]string{"", "", "", "client-rst", "malformed", "self-dependent"}).Draw(t, "last")
+		}
+		return pl, "served:" + map[string]string{"h2": "h2", "http/1.1": "http/1.1", "": "no-alpn"}[alpn]
 	}
 }
 
@@ -152,7 +162,11 @@ func exec(t *testing.T, s Script) *vstat.Violation {
 					continue
 				}
 				ended[i] = true
-				if okHS, proto := rig.Snapshot(r); okHS {
+				captureFails := s.Plans[i].FirstRecordVersion != 0 && (s.Plans[i].FirstRecordVersion < 0x0300 || s.Plans[i].FirstRecordVersion > 0x0304)
+				if captureFails {
+					classes["handshake-or-capture-fails:odd-record-version"] = true
+				}
+				if okHS, proto := rig.Snapshot(r); okHS && !captureFails {
 					model["1/"+proto]++
 				} else {
 					model["0/"]++
@@ -268,6 +282,6 @@ func exec(t *testing.T, s Script) *vstat.Violation {
 
 func TestMetric(t *testing.T) {
 	rig.Certs()
-	col.Mandatory("label:0/", "label:1/h2", "label:1/http/1.1", "label:1/", "plan:plainhttp", "plan:garbage", "plan:silent", "plan:serve:h2:close", "plan:serve:http/1.1:stall")
+	col.Mandatory("label:0/", "label:1/h2", "label:1/http/1.1", "label:1/", "plan:plainhttp", "plan:garbage", "plan:silent", "plan:serve:h2:close", "plan:serve:http/1.1:stall", "handshake-or-capture-fails:odd-record-version")
 	vstat.Run(t, vstat.Spec[Script]{Col: col, Quick: 1000, Thorough: 30000, Gen: gen, Exec: func(s Script) *vstat.Violation { return exec(t, s) }})
 }
